@@ -27,29 +27,173 @@ package packet
 //@   nonnil
 //@   ensures result1 == nil ==> result0 != nil
 
-//@ contract decodeNLRI
+// Property C19 (decoder boundary): a successful decode consumed exactly what the
+// length fields declared, and the three UPDATE lengths add up without wrap-around.
+// (len0 <= 4096 keeps the 16-bit counters of the code from wrapping; a BGP
+// message has at most 4096 bytes.)
+//@ contract dumpNBytes
 //@   props C16 C19
 //@   nonnil
-//@   ensures result2 == nil ==> result0 != nil
+//@   modifies buf
+//@   old len0 int = buf.Len()
+//@   ensures[C19] result == nil ==> len0 - buf.Len() == int(n)
+//@   loop 0 vars i uint16
+//@   loop 0 invariant len0 - buf.Len() == int(i) && i <= n
 
-//@ contract decodeNLRIs
+//@ contract (*PathAttribute).decodeCommunities
 //@   props C16 C19
 //@   nonnil
-//@   loop 0 vars ret *NLRI, eol *NLRI
-//@   loop 0 invariant (ret == nil) == (eol == nil)
+//@   modifies buf, pa
+//@   old len0 int = buf.Len()
+//@   ensures[C19] result == nil ==> len0 - buf.Len() == int(pa.Length)
+//@   loop 0 vars i uint16, count uint16
+//@   loop 0 invariant len0 - buf.Len() == 4*int(i) && i <= count
+
+//@ contract (*PathAttribute).decodeClusterList
+//@   props C16 C19
+//@   nonnil
+//@   modifies buf, pa
+//@   old len0 int = buf.Len()
+//@   ensures[C19] result == nil ==> len0 - buf.Len() == int(pa.Length)
+//@   loop 0 vars i uint16, count uint16
+//@   loop 0 invariant len0 - buf.Len() == 4*int(i) && i <= count
+
+//@ contract (*PathAttribute).decodeLargeCommunities
+//@   props C16 C19
+//@   nonnil
+//@   modifies buf, pa
+//@   old len0 int = buf.Len()
+//@   ensures[C19] result == nil ==> len0 - buf.Len() == int(pa.Length)
+//@   loop 0 vars i uint16, count uint16
+//@   loop 0 invariant len0 - buf.Len() == 12*int(i) && i <= count
+
+//@ contract (*PathAttribute).decodeASPath
+//@   props C16 C19
+//@   nonnil
+//@   requires asnLength == 2 || asnLength == 4
+//@   modifies buf, pa
+//@   old len0 int = buf.Len()
+//@   ensures[C19] result == nil && len0 <= 4096 ==> len0 - buf.Len() == int(pa.Length)
+//@   loop 0 vars p uint16
+//@   loop 0 invariant spec_isASPath(pa.Value)
+//@   loop 0 invariant len0 <= 4096 ==> int(p) == len0 - buf.Len()
+//@   loop 1 vars p uint16
+//@   loop 1 invariant len0 <= 4096 ==> int(p) == len0 - buf.Len()
+
+// One consumption contract per attribute decoder keeps decodePathAttr's own
+// verification condition small (callers see the contracts, not the bodies).
+//@ contract (*PathAttribute).setLength
+//@   props C16 C19
+//@   nonnil
+//@   modifies buf, pa
+//@   old len0 int = buf.Len()
+//@   ensures result1 == nil ==> len0 - buf.Len() == result0 && (result0 == 1 || result0 == 2)
+
+//@ contract (*PathAttribute).decodeOrigin
+//@   props C16 C19
+//@   nonnil
+//@   modifies buf, pa
+//@   old len0 int = buf.Len()
+//@   ensures[C19] result == nil && len0 <= 4096 ==> len0 - buf.Len() == int(pa.Length)
+
+//@ contract (*PathAttribute).decodeNextHop
+//@   props C16 C19
+//@   nonnil
+//@   modifies buf, pa
+//@   old len0 int = buf.Len()
+//@   ensures[C19] result == nil ==> len0 - buf.Len() == int(pa.Length)
+
+//@ contract (*PathAttribute).decodeMED
+//@   props C16 C19
+//@   nonnil
+//@   modifies buf, pa
+//@   old len0 int = buf.Len()
+//@   ensures[C19] result == nil ==> len0 - buf.Len() == int(pa.Length)
+
+//@ contract (*PathAttribute).decodeLocalPref
+//@   props C16 C19
+//@   nonnil
+//@   modifies buf, pa
+//@   old len0 int = buf.Len()
+//@   ensures[C19] result == nil ==> len0 - buf.Len() == int(pa.Length)
+
+//@ contract (*PathAttribute).decodeAggregator
+//@   props C16 C19
+//@   nonnil
+//@   modifies buf, pa
+//@   old len0 int = buf.Len()
+//@   ensures[C19] result == nil && len0 <= 4096 ==> len0 - buf.Len() == int(pa.Length)
+
+//@ contract (*PathAttribute).decodeUint32
+//@   props C16 C19
+//@   nonnil
+//@   modifies buf, pa
+//@   old len0 int = buf.Len()
+//@   ensures[C19] result == nil && len0 <= 4096 ==> len0 - buf.Len() == int(pa.Length)
+
+//@ contract (*PathAttribute).decodeUnknown
+//@   props C16 C19
+//@   nonnil
+//@   modifies buf, pa
+//@   old len0 int = buf.Len()
+//@   ensures[C19] result == nil ==> len0 - buf.Len() == int(pa.Length)
+
+//@ contract (*PathAttribute).decodeMultiProtocolReachNLRI
+//@   props C16 C19
+//@   nonnil
+//@   modifies buf, pa
+//@   old len0 int = buf.Len()
+//@   ensures[C19] result == nil ==> len0 - buf.Len() == int(pa.Length)
+
+//@ contract (*PathAttribute).decodeMultiProtocolUnreachNLRI
+//@   props C16 C19
+//@   nonnil
+//@   modifies buf, pa
+//@   old len0 int = buf.Len()
+//@   ensures[C19] result == nil ==> len0 - buf.Len() == int(pa.Length)
 
 //@ contract decodePathAttr
 //@   props C16 C19
 //@   nonnil
-//@   ensures err == nil ==> pa != nil
+//@   modifies buf
+//@   old len0 int = buf.Len()
+//@   ensures err == nil ==> pa != nil && verif_fresh(pa)
+//@   ensures err == nil && len0 <= 4096 ==> int(consumed) == len0 - buf.Len()
 
 //@ contract decodePathAttrs
 //@   props C16 C19
 //@   nonnil
-//@   loop 0 vars ret *PathAttribute, eol *PathAttribute
-//@   loop 0 invariant (ret == nil) == (eol == nil)
+//@   modifies buf
+//@   old len0 int = buf.Len()
+//@   ensures[C19] result1 == nil && len0 <= 4096 ==> len0 - buf.Len() == int(tpal)
+//@   loop 0 vars ret *PathAttribute, eol *PathAttribute, p uint16
+//@   loop 0 invariant (ret == nil) == (eol == nil) && (eol == nil || verif_fresh(eol))
+//@   loop 0 invariant len0 <= 4096 ==> int(p) == len0 - buf.Len()
 
-//@ contract (*PathAttribute).decodeASPath
-//@   props C16
+//@ contract decodeNLRI
+//@   props C16 C19
 //@   nonnil
-//@   loop 0 invariant spec_isASPath(pa.Value)
+//@   modifies buf
+//@   old len0 int = buf.Len()
+//@   ensures result2 == nil ==> result0 != nil && verif_fresh(result0)
+//@   ensures result2 == nil && safi != SAFILabeledUnicast ==> int(result1) == len0 - buf.Len() && result1 >= 1
+//@   ensures result2 == nil ==> result0.Prefix != nil
+
+//@ contract decodeNLRIs
+//@   props C16 C19
+//@   nonnil
+//@   modifies buf
+//@   old len0 int = buf.Len()
+//@   ensures result1 == nil && safi != SAFILabeledUnicast && len0 <= 4096 ==> len0 - buf.Len() == int(length)
+//@   loop 0 vars ret *NLRI, eol *NLRI, p uint16
+//@   loop 0 invariant (ret == nil) == (eol == nil) && (eol == nil || verif_fresh(eol))
+//@   loop 0 invariant safi != SAFILabeledUnicast && len0 <= 4096 ==> int(p) == len0 - buf.Len()
+
+//@ contract decodeUpdateMsg
+//@   props C16 C19
+//@   nonnil
+//@   modifies buf
+//@   old len0 int = buf.Len()
+//@   ensures result1 == nil ==> result0 != nil
+//@   ensures[C19] result1 == nil && len0 <= 4096 ==> 4+uint32(result0.WithdrawnRoutesLen)+uint32(result0.TotalPathAttrLen) <= uint32(l)
+//@   ensures[C19] result1 == nil && len0 <= 4096 ==> len0 - buf.Len() == int(l)
